@@ -2,7 +2,7 @@
 file and appends what it printed / received (with sequence numbers) to a
 report file, flushing after every step.
 
-steps: ["print", hex] | ["readline"] | ["pause", secs] | ["exit", code] | ["noecho"]
+steps: ["print", hex] | ["readline"] | ["pause", secs] | ["exit", code] | ["killself", signo] | ["noecho"]
 """
 import json
 import os
@@ -46,5 +46,12 @@ for st in script:
     elif st[0] == 'exit':
         note('exit', st[1])
         os._exit(st[1])
+    elif st[0] == 'killself':
+        # the child ends by a signal: it has no exit code of its own
+        import signal
+        note('killself', st[1])
+        signal.signal(st[1], signal.SIG_DFL) if st[1] != signal.SIGKILL else None
+        os.kill(os.getpid(), st[1])
+        time.sleep(30)
 note('end', 0)
 os._exit(0)
